@@ -8,7 +8,7 @@ import os
 import random
 import re
 import vf
-from slices import actor, flow, root, sysrun
+from slices import actor, evflow, flow, root, sysrun
 
 
 def sys_campaign(ck, prop, n, families=None, gated_p=0.6, fail_p=0.25, workers=6, seed_base=0, hang_s=None, stop_on_first=False,
@@ -84,7 +84,7 @@ def two_invocations(ck, prop, n_quick=10, fail_p=0.7):
 
 def check_engine(ck, prop, projection, what, n_actor_quick=400, n_sys_quick=24, families=None, fail_p=0.25, gated_p=0.6,
                  extra=None, clean_p=0.0, n_root_quick=0, root_projection=None, root_what='run status and relayed outputs',
-                 n_flow_quick=0):
+                 n_flow_quick=0, n_evflow_quick=0):
     quick = ck.tier == 'quick'
     n_actor = n_actor_quick if quick else n_actor_quick * 12
     n_sys = n_sys_quick if quick else n_sys_quick * 12
@@ -102,6 +102,9 @@ def check_engine(ck, prop, projection, what, n_actor_quick=400, n_sys_quick=24, 
     fdiffs = []
     if n_flow_quick:
         fdiffs = flow.run(ck, n_flow_quick if quick else n_flow_quick * 10)
+    # 1d. event-flow conformance, one-shot and watch mode (hooks H7: every event every real actor consumed)
+    if n_evflow_quick:
+        fdiffs = fdiffs + evflow.run(ck, n_evflow_quick if quick else n_evflow_quick * 8)
     # 2. system-level scenarios
     found = sys_campaign(ck, prop, n_sys, families=families, fail_p=fail_p, gated_p=gated_p, clean_p=clean_p)
     if extra:
@@ -123,7 +126,7 @@ def check_engine(ck, prop, projection, what, n_actor_quick=400, n_sys_quick=24, 
                           'searched': 'system-level scenarios found no violation of the property'}, found_input=False)
         elif fdiffs:
             ck.violation({'kind': 'correspondence',
-                          'correspondence': 'message flow of whole runs of the real engine vs Actor.actor_step replayed per actor',
+                          'correspondence': 'message / event flow of whole runs of the real engine (one-shot, watch) vs Actor.actor_step replayed per actor',
                           'difference': fdiffs[0], 'n_differences': len(fdiffs),
                           'searched': 'system-level scenarios found no violation of the property'}, found_input=False)
         else:
